@@ -153,8 +153,23 @@ def _arith2(a, b):
     return ta, tb_, False
 
 
+_WRAP_CACHE: dict = {}
+
+
 def wrap(t):
     """z3 term -> symbolic python value (constants become native python values)."""
+    key = t.get_id()
+    hit = _WRAP_CACHE.get(key)
+    if hit is not None:
+        return hit[1]
+    v = _wrap(t)
+    if len(_WRAP_CACHE) > 200000:
+        _WRAP_CACHE.clear()
+    _WRAP_CACHE[key] = (t, v)  # keep t alive so the id is not reused
+    return v
+
+
+def _wrap(t):
     t = z3.simplify(t)
     if z3.is_int_value(t):
         return t.as_long()
@@ -761,11 +776,12 @@ class PathCtx:
 
     # -- branching ---------------------------------------------------------
     def branch(self, cond):
-        cond = z3.simplify(tb(cond))
-        if z3.is_true(cond):
+        w = wrap(tb(cond))
+        if w is True:
             return True
-        if z3.is_false(cond):
+        if w is False:
             return False
+        cond = w.t
         i = len(self.trace)
         if i < len(self.prefix):
             choice = self.prefix[i]
